@@ -528,6 +528,7 @@ func Run(c *evid.Ctx) {
 		hd = 5
 	}
 	licenceHistories(c, hd, &evals, &nontriv)
+	headerHelper(c, lics, pcodes, &evals, &nontriv)
 	vnet.Use(nil)
 	c.Count("evaluations", evals)
 	c.Count("distinct_nontrivial", nontriv)
